@@ -3,6 +3,7 @@ import Robsd.Model.Interp
 import Robsd.Gen.Arith
 import Robsd.Model.RegressLog
 import Robsd.Model.StepFile
+import Robsd.Model.StepNext
 /-
   robsd_model: the executable models behind a line protocol.
   One request per line: `<component> <op> <args…>`; byte strings are hex
@@ -38,8 +39,41 @@ def selOf (s : String) : RegressLog.Sel :=
 def selArg (s : String) : StepFile.Sel :=
   if s.startsWith "n:" then .name (hexArg (s.drop 2).toString) else .idx ((s.drop 2).toString.toInt?.getD 0)
 
+def slotOf (s : String) : OrchSeq.Slot :=
+  if s == "e" then .empty else if s == "s" then .skipped else .rcd ((s.drop 1).toString.toInt?.getD 0)
+
+def fileOfSlots (ss : List String) : OrchSeq.File := fun j => (ss[j]?.map slotOf).getD .empty
+
+def showW : OrchSeq.Wr → String
+  | .skipRec i => s!"skip:{i}"
+  | .inflight i => s!"inflight:{i}"
+  | .done i e => s!"done:{i}:{e}"
+  | .endRec i => s!"end:{i}"
+
+def natList (s : String) : List Nat := if s == "-" then [] else (s.splitOn ",").filterMap (·.toNat?)
+def intFun (s : String) : Nat → Int :=
+  let l := if s == "-" then [] else (s.splitOn ",").filterMap (·.toInt?)
+  fun j => l.getD j 0
+
 def handle (ws : List String) : String :=
   match ws with
+  | "stepnext" :: file :: [] =>
+    match StepFile.stepNextCmd (hexArg file) with
+    | (rc, some p) => s!"{rc} {p}"
+    | (rc, none) => s!"{rc} -"
+  | "orch" :: "resume" :: n :: skip :: slots =>
+    let c : OrchSeq.Cfg := ⟨n.toNat?.getD 0, fun j => (natList skip).contains j⟩
+    match OrchSeq.resumeAt c (fileOfSlots slots) with
+    | none => "none"
+    | some p => s!"{p}"
+  | "orch" :: "fresh" :: n :: skip :: exits :: [] =>
+    let c : OrchSeq.Cfg := ⟨n.toNat?.getD 0, fun j => (natList skip).contains j⟩
+    " ".intercalate ((OrchSeq.freshWrites c (intFun exits) (natList skip)).map showW)
+  | "orch" :: "resumew" :: n :: skip :: exits :: slots =>
+    let c : OrchSeq.Cfg := ⟨n.toNat?.getD 0, fun j => (natList skip).contains j⟩
+    match OrchSeq.resumeWrites c (intFun exits) (fileOfSlots slots) with
+    | none => "none"
+    | some w => " ".intercalate (w.map showW)
   | "step" :: "write" :: file :: id :: flush :: kvs =>
     let fl := if flush == "ok" then StepFile.Flush.ok else .failed (hexArg ((flush.drop 5).toString))
     let r := StepFile.writeCmd (hexArg file) (id.toInt?.getD 0) (kvs.map hexArg) fl
